@@ -2,6 +2,7 @@ import PyYetiVerif.Model.Uset
 import PyYetiVerif.Model.UsetUp
 import PyYetiVerif.Model.Locate
 import PyYetiVerif.Model.UsetXyz
+import PyYetiVerif.Model.UsetTran
 /-! Line protocol for C18.  A request is `op args | section | section …`; sections hold
 space-separated integers (matrix rows are separated by `;`).  Replies: `ok …` with sections
 separated by ` | `, or `value-error` / `index-error` / `key-error` / `type-error` /
@@ -33,6 +34,15 @@ separated by ` | `, or `value-error` / `index-error` / `key-error` / `type-error
   fvals | r ; r ; … | v…       -> ok 0 1 …   (column-major)
   frows <c> | r ; r ; … | row  -> ok 0 1 …
   funique <tn> <td> | y…       -> ok 1 0 …   (tol = tn/td)
+  ftran <se> <gset> 1 <g>|2 | (five nas sections) | got | goq | gm | pha | phg | request
+                               -> ok nr nc : entries | id dof …            (formtran; a matrix section is `se : nr nc v … ; …`)
+  fulvs <seup> <sedn> <keepcset> <shortcut> <gset> | (5) | (5 matrices) | ulvs      -> ok one / ok nr nc : entries   (formulvs)
+  fdrm <seup> <sedn> <gset> 1 <g>|2 | (5) | (5 matrices) | ulvs | request           -> ok nr nc : entries | id dof …  (formdrm)
+  qftran / qfulvs / qfdrm                      the same three with rational entries `n/d` (the nas2cam files of pyYeti's tests;
+                                               qfulvs, qfdrm without the ulvs section), replies with rational entries
+  addulvs <sedn> <keepcset> <shortcut> <gset> | (5) | (5 matrices) | ulvs | se…     -> ok se : one ; se : nr nc : entries ; …
+       (ulvs section: `none` = no such key, else `dict se : one ; se : nr nc v …`)
+  usetprt | id dof word … | * or names         -> ok names | id dof dof# n … ; …  / ok none      (usetprt: returned table)
 Float / mixed inputs are dyadic (k/4) and sent scaled by 4.
 -/
 open PyYetiVerif PyYetiVerif.Uset PyYetiVerif.Locate
@@ -81,6 +91,66 @@ def nasOf (sl us dn mp up : String) : Option Nas := do
   let upids ← dictOf up ints
   pure { selist, uset, dnids, maps, upids }
 
+/-- `nr nc v …` -/
+def matOf (s : String) : Option (M Int) :=
+  match ints s with
+  | some (nr :: nc :: vals) =>
+      if nr < 0 ∨ nc < 0 ∨ vals.length ≠ nr.toNat * nc.toNat then none
+      else some ⟨(List.range nr.toNat).map (fun i => (vals.drop (i * nc.toNat)).take nc.toNat), nc.toNat⟩
+  | _ => none
+
+/-- a rational `n/d` or an integer -/
+def ratOf (t : String) : Option Rat :=
+  match t.splitOn "/" with
+  | [n] => n.toInt?.map (fun i => (i : Rat))
+  | [n, d] => match n.toInt?, d.toNat? with
+      | some n, some d => if d = 0 then none else some ((n : Rat) / (d : Rat))
+      | _, _ => none
+  | _ => none
+
+/-- `nr nc v …` with rational entries -/
+def matOfQ (s : String) : Option (M Rat) :=
+  match toks s with
+  | nr :: nc :: vals =>
+      match nr.toNat?, nc.toNat?, vals.mapM ratOf with
+      | some nr, some nc, some vs =>
+          if vs.length ≠ nr * nc then none
+          else some ⟨(List.range nr).map (fun i => (vs.drop (i * nc)).take nc), nc⟩
+      | _, _, _ => none
+  | _ => none
+
+def nasTOfQ (secs : List String) : Option (NasT Rat) :=
+  match secs with
+  | [sl, us, dn, mp, up, a, b, c, d, e] => do
+      let nas ← nasOf sl us dn mp up
+      let got ← dictOf a matOfQ
+      let goq ← dictOf b matOfQ
+      let gm ← dictOf c matOfQ
+      let pha ← dictOf d matOfQ
+      let phg ← dictOf e matOfQ
+      pure { nas, got, goq, gm, pha, phg }
+  | _ => none
+
+def nasTOf (secs : List String) : Option (NasT Int) :=
+  match secs with
+  | [sl, us, dn, mp, up, a, b, c, d, e] => do
+      let nas ← nasOf sl us dn mp up
+      let got ← dictOf a matOf
+      let goq ← dictOf b matOf
+      let gm ← dictOf c matOf
+      let pha ← dictOf d matOf
+      let phg ← dictOf e matOf
+      pure { nas, got, goq, gm, pha, phg }
+  | _ => none
+
+def ulvsOf (s : String) : Option (Option (List (Nat × Ulvs Int))) :=
+  match toks s with
+  | ["none"] => some none
+  | "dict" :: _ =>
+      let body := (s.splitOn "dict").getD 1 ""
+      (dictOf body (fun v => if toks v = ["one"] then some Ulvs.one else (matOf v).map Ulvs.mat)).map some
+  | _ => none
+
 def showL {α} [ToString α] (l : List α) : String := " ".intercalate (l.map toString)
 def showB (l : List Bool) : String := showL (l.map fun b => if b then 1 else 0)
 def errS : Err → String
@@ -98,6 +168,18 @@ def setSpec (s : String) : Except Err Nat :=
   if s.startsWith "#" then
     match (s.drop 1).toString.toNat? with | some n => .ok n | none => .error .key
   else maskOfString s
+
+def terrS : TErr → String
+  | .base e => errS e | .runtime => "runtime-error" | .fuel => "fuel"
+def replyT {α} (r : Except TErr α) (f : α → String) : String :=
+  match r with | .ok v => "ok " ++ f v | .error e => terrS e
+def showM (m : M Int) : String := s!"{m.r.length} {m.c} : " ++ showL m.r.flatten
+def showU : Ulvs Int → String | .one => "one" | .mat m => showM m
+def mks : Masks := Masks.ofTable Generated.UsetMask.mask
+def showQ (x : Rat) : String := if x.den = 1 then toString x.num else s!"{x.num}/{x.den}"
+def showMQ (m : M Rat) : String := s!"{m.r.length} {m.c} : " ++ " ".intercalate (m.r.flatten.map showQ)
+def showUQ : Ulvs Rat → String | .one => "one" | .mat m => showMQ m
+def keyOf (i d : Nat) : List Int := [(i : Int), (d : Int)]
 
 def optI : Option Int → String | some v => toString v | none => "None"
 def parseOptI (s : String) : Option (Option Int) :=
@@ -192,6 +274,53 @@ def answer (line : String) : String :=
           let m := Generated.UsetMask.mask
           reply (upqsetpv (m .a) (m .q) (m .p) nas (nas.selist.length + 1) se) showB
       | _, _ => "bad-op"
+  | "ftran" :: se :: gset :: kind, [s1, s2, s3, s4, s5, a, b, c, d, e, rq] =>
+      match se.toNat?, nasTOf [s1, s2, s3, s4, s5, a, b, c, d, e], request kind rq with
+      | some se, some nt, some rq =>
+          replyT (formtran (fun i d => [(i : Int), (d : Int)]) mks nt se rq (gset = "1")) (fun r => showM r.1 ++ " | " ++ showL (flat2 r.2))
+      | _, _, _ => "bad-op"
+  | ["fulvs", seup, sedn, kc, sc, gset], [s1, s2, s3, s4, s5, a, b, c, d, e, u] =>
+      match seup.toNat?, sedn.toNat?, nasTOf [s1, s2, s3, s4, s5, a, b, c, d, e], ulvsOf u with
+      | some seup, some sedn, some nt, some ul =>
+          replyT (formulvs (fun i d => [(i : Int), (d : Int)]) mks nt ul seup sedn (kc = "1") (sc = "1") (gset = "1")) showU
+      | _, _, _, _ => "bad-op"
+  | "fdrm" :: seup :: sedn :: gset :: kind, [s1, s2, s3, s4, s5, a, b, c, d, e, u, rq] =>
+      match seup.toNat?, sedn.toNat?, nasTOf [s1, s2, s3, s4, s5, a, b, c, d, e], ulvsOf u, request kind rq with
+      | some seup, some sedn, some nt, some ul, some rq =>
+          replyT (formdrm (fun i d => [(i : Int), (d : Int)]) mks nt ul seup rq sedn (gset = "1")) (fun r => showM r.1 ++ " | " ++ showL (flat2 r.2))
+      | _, _, _, _, _ => "bad-op"
+  | "qftran" :: se :: gset :: kind, [s1, s2, s3, s4, s5, a, b, c, d, e, rq] =>
+      match se.toNat?, nasTOfQ [s1, s2, s3, s4, s5, a, b, c, d, e], request kind rq with
+      | some se, some nt, some rq =>
+          replyT (formtran keyOf mks nt se rq (gset = "1")) (fun r => showMQ r.1 ++ " | " ++ showL (flat2 r.2))
+      | _, _, _ => "bad-op"
+  | ["qfulvs", seup, sedn, kc, sc, gset], [s1, s2, s3, s4, s5, a, b, c, d, e] =>
+      match seup.toNat?, sedn.toNat?, nasTOfQ [s1, s2, s3, s4, s5, a, b, c, d, e] with
+      | some seup, some sedn, some nt =>
+          replyT (formulvs keyOf mks nt none seup sedn (kc = "1") (sc = "1") (gset = "1")) showUQ
+      | _, _, _ => "bad-op"
+  | "qfdrm" :: seup :: sedn :: gset :: kind, [s1, s2, s3, s4, s5, a, b, c, d, e, rq] =>
+      match seup.toNat?, sedn.toNat?, nasTOfQ [s1, s2, s3, s4, s5, a, b, c, d, e], request kind rq with
+      | some seup, some sedn, some nt, some rq =>
+          replyT (formdrm keyOf mks nt none seup rq sedn (gset = "1")) (fun r => showMQ r.1 ++ " | " ++ showL (flat2 r.2))
+      | _, _, _, _ => "bad-op"
+  | ["addulvs", sedn, kc, sc, gset], [s1, s2, s3, s4, s5, a, b, c, d, e, u, ses] =>
+      match sedn.toNat?, nasTOf [s1, s2, s3, s4, s5, a, b, c, d, e], ulvsOf u, nats ses with
+      | some sedn, some nt, some ul, some ses =>
+          replyT (addulvs (fun i d => [(i : Int), (d : Int)]) mks nt ul ses sedn (kc = "1") (sc = "1") (gset = "1"))
+            (fun l => " ; ".intercalate (l.map fun p => s!"{p.1} : " ++ showU p.2))
+      | _, _, _, _ => "bad-op"
+  | ["usetprt"], [tb, names] =>
+      match (nats tb).bind triples with
+      | some tbl =>
+          let ps : Option (List SetName) :=
+            if toks names = ["*"] then none
+            else some ((toks names).filterMap SetName.ofString?)
+          (match usetprtTable Generated.UsetMask.mask tbl ps with
+           | none => "ok none"
+           | some (nm, rows) => "ok " ++ " ".intercalate (nm.map SetName.toString) ++ " | " ++
+               " ; ".intercalate (rows.map fun r => showL ([r.1, r.2.1, r.2.2.1] ++ r.2.2.2)))
+      | none => "bad-op"
   | ["dups", tol], [v] =>
       match tol.toInt?, ints v with
       | some t, some l => "ok " ++ showB (findDuplicates l t)
